@@ -380,7 +380,7 @@ def discharge(obligations, tier="quick"):
             # the solver budgets are wall time: on a loaded machine a query that normally takes a fraction of a
             # second can run out of it.  An undecided obligation is asked once more with a larger budget before it is
             # reported as undecided (exit 2); a verdict is never taken from a timeout.
-            r2 = discharge_one(ob, tier, inproc * 5, ext_s * 4)
+            r2 = discharge_one(ob, tier, inproc * 5, ext_s * 2)
             if r2.status != "unknown":
                 r2.detail = ((r2.detail or "") + " [decided on the second attempt with a larger budget]").strip()
                 r = r2
